@@ -8,6 +8,21 @@ model and prints the expected response of every pair; each pair is executed on t
 flat-colour synthetic upstreams and compared (spec -> code).  Random worlds / geometries / requests / callback results
 are recorded from the real application and validated by TLC against spec/trace/Trace_Auth.tla, which also evaluates
 the property on every recorded observation (code -> spec).
+
+Oblique worlds (code -> spec only): the lattice model cannot see defects that need a limited_to SRS and a grid / request
+SRS related by a transformation that bends straight lines.  Random requests (TMS, KML, WMTS incl. feature info, WMS GetMap /
+GetFeatureInfo / capabilities) are therefore also recorded in worlds whose tile grid lives in EPSG:3995 (polar stereographic,
+c10_world.FRAMES) under callback results whose areas are given natively in EPSG:4326 (OGeom).  For such an event the geometry
+table of the model holds a "raster" entry per area: the class (out / band / in) of every pixel centre of the request, the class
+of the feature-info point, and whether the area certainly meets the grid extent.  These geometric inputs are computed here
+with pyproj point transforms and shapely only (outline densified in EPSG:4326, projected point by point; never with
+mapproxy's coverage code); the decision - is the recorded response a terminal state of Auth.tla, does the observation
+satisfy DeniedStaysDark / ClippedOutside / ContentInside / InfoGateOK - is TLC's.  A good share of the tile requests has the
+border of the area running through the bulge of a curved tile edge with all four tile corners inside the area (where a
+"contains" decision taken on the corner quadrilateral is wrong, seed s15); vacuity counters guard this.  Areas are handed to
+MapProxy with densified edges (must satisfy the property) or, in 20% of the events, with their few vertices only (MapProxy
+transforms geometries vertex by vertex, so the clip edge is a chord: violations are reported under their own signature
+SPARSE_SIG).
 """
 import io
 import json
@@ -86,6 +101,148 @@ class Geom(object):
 FORMS = [('bbox', 'req'), ('wkt', 'req'), ('shapely', 'alias'), ('lines', 'req'), ('wkt', 'alias'), ('shapely', 'req'),
          ('bbox', 'alias'), ('shapely', 'geo'), ('wkt', 'geo')]
 
+
+# ---------------------------------------------------------------------------------------------------------------
+# geometry of the oblique worlds: areas given natively in EPSG:4326, tile grid in a polar stereographic SRS
+# ---------------------------------------------------------------------------------------------------------------
+TRUE_EPS = 0.0005      # lattice units: chord error of the densified outline the pixel classes are computed from
+DENSE_EPS = 0.02       # lattice units (= 0.02 px at the finest level): chord error of the "densified" geometries handed to MapProxy
+TOL = 0.02             # pixels: guard band around the one-pixel threshold / around "exactly on the boundary"
+O_WINDOW = (-89.0, 40.0, 89.0, 89.5)      # lon/lat window of the half-plane like areas (contains the whole grid of both frames)
+
+
+def _densify_ring(frame, coords, eps):
+    """vertices (lon, lat) of a closed ring -> (lon/lat vertices, lattice vertices) with every edge subdivided IN EPSG:4326
+    until the projected outline deviates less than eps lattice units from the projected straight lon/lat edge"""
+    import numpy as np
+    lls, lat_pts = [], []
+    for (x0, y0), (x1, y1) in zip(coords[:-1], coords[1:]):
+        n = 4
+        while True:
+            t = np.linspace(0.0, 1.0, 2 * n + 1)
+            lon, lat = x0 + (x1 - x0) * t, y0 + (y1 - y0) * t
+            px, py = W.lonlat_to_lattice(frame, lon, lat)
+            mx, my = (px[0:-2:2] + px[2::2]) / 2.0, (py[0:-2:2] + py[2::2]) / 2.0
+            dev = float(np.max(np.hypot(px[1::2] - mx, py[1::2] - my)))
+            if dev < eps or n >= 1 << 15:
+                break
+            n *= 2
+        lls.extend(zip(lon[:-1].tolist(), lat[:-1].tolist()))
+        lat_pts.extend(zip(px[:-1].tolist(), py[:-1].tolist()))
+    lls.append(lls[0])
+    lat_pts.append(lat_pts[0])
+    return lls, lat_pts
+
+
+def _polygons(g):
+    return [g] if g.geom_type == 'Polygon' else [p for p in getattr(g, 'geoms', []) if p.geom_type == 'Polygon']
+
+
+def _densified(frame, g, eps):
+    """-> (the same area of the lon/lat plane with densified edges, its image in lattice coordinates)"""
+    from shapely.geometry import Polygon, MultiPolygon
+    ll, lt = [], []
+    for p in _polygons(g):
+        rings = [_densify_ring(frame, list(p.exterior.coords), eps)] + [_densify_ring(frame, list(r.coords), eps) for r in p.interiors]
+        ll.append(Polygon(rings[0][0], [r[0] for r in rings[1:]]))
+        lt.append(Polygon(rings[0][1], [r[1] for r in rings[1:]]))
+    if len(ll) == 1:
+        return ll[0], lt[0]
+    return MultiPolygon(ll), MultiPolygon(lt)
+
+
+class OGeom(object):
+    """A limited_to area of an oblique world: a (multi)polygon of the lon/lat plane (EPSG:4326, straight edges between
+    its vertices).  `sparse`: handed to MapProxy with these few vertices (a rectangle possibly as 4 numbers), otherwise
+    with densified edges (same area).  The pixel classes of a request are computed here, independently of MapProxy's
+    coverage code: pyproj point transforms of the finely densified outline + shapely distances in grid SRS units."""
+
+    def __init__(self, frame, g, sparse, rect=None):
+        self.frame, self.g, self.sparse, self.rect = frame, g, bool(sparse), (tuple(rect) if rect else None)
+        self._true = None
+        self._dense = None
+
+    def true(self):
+        if self._true is None:
+            t = _densified(self.frame, self.g, TRUE_EPS)[1]
+            if not t.is_valid:
+                raise tlc.MachineryError('projected limited_to area is not a valid polygon: %s' % self.g.wkt[:300])
+            self._true = t
+        return self._true
+
+    def limited_to(self, form, srs):
+        g = self.g
+        if self.sparse:
+            if self.rect and form == 'bbox':
+                return {'geometry': list(self.rect), 'srs': 'EPSG:4326'}
+        else:
+            if self._dense is None:
+                self._dense = _densified(self.frame, self.g, DENSE_EPS)[0]
+            g = self._dense
+        if form == 'shapely':
+            return {'geometry': g, 'srs': 'EPSG:4326'}
+        if form == 'lines' and g.geom_type == 'MultiPolygon':
+            return {'geometry': '\n'.join(p.wkt for p in g.geoms), 'srs': 'EPSG:4326'}
+        return {'geometry': g.wkt, 'srs': 'EPSG:4326'}
+
+    def json(self):
+        return {'frame': self.frame, 'wkt4326': self.g.wkt, 'sparse': self.sparse, 'rect': list(self.rect) if self.rect else None}
+
+    @staticmethod
+    def from_json(d):
+        from shapely import wkt
+        return OGeom(d['frame'], wkt.loads(d['wkt4326']), d['sparse'], d.get('rect'))
+
+    # ---- the geometric inputs of the model --------------------------------------------------------------
+    def _local(self, rect, margin):
+        from shapely.geometry import box
+        win = box(rect[0] - margin, rect[1] - margin, rect[2] + margin, rect[3] + margin)
+        t = self.true()
+        return t.intersection(win), win.difference(t)
+
+    def classes(self, bx):
+        """class of every pixel centre of the request box (x0, y0, rx, ry, w, h): 0 out, 1 band, 2 in (rows top down);
+        distances in lattice (= grid SRS) units against max(rx, ry) like One2 in Auth.tla; a pixel within TOL of the
+        one-pixel threshold is "band" """
+        import numpy as np
+        import shapely
+        x0, y0, rx, ry, w, h = bx
+        m = float(max(rx, ry))
+        inside, outside = self._local((x0, y0, x0 + w * rx, y0 + h * ry), 3 * m)
+        cx = x0 + (np.arange(w) + 0.5) * rx
+        cy = y0 + h * ry - (np.arange(h) + 0.5) * ry
+        pts = shapely.points(*np.meshgrid(cx, cy))
+        d_out = shapely.distance(pts, inside) if not inside.is_empty else np.full(pts.shape, np.inf)
+        d_in = shapely.distance(pts, outside) if not outside.is_empty else np.full(pts.shape, np.inf)
+        thr = (1.0 + TOL) * m
+        cls = np.where(d_out > thr, 0, np.where(d_in > thr, 2, 1))
+        signed = np.where(d_out > 0, d_out, -d_in) / m          # pixels outside (+) / inside (-), for the reports only
+        return cls.tolist(), signed
+
+    def point_class(self, x, y, m):
+        from shapely.geometry import Point
+        inside, outside = self._local((x, y, x, y), 3 * m)
+        p = Point(x, y)
+        if inside.is_empty or inside.distance(p) > TOL * m:
+            return 'out'
+        if outside.is_empty or outside.distance(p) > TOL * m:
+            return 'in'
+        return 'edge'
+
+    def grid_fact(self, world):
+        """does the area certainly meet the extent of the tile grid as MapProxy tests it (the lon/lat envelope of points
+        on the outline of the extent)?  "yes" when it contains a corner or an edge midpoint of the extent, else "maybe" """
+        from shapely.geometry import Point
+        x0, y0, x1, y1 = world.grid['bbox']
+        t = self.true()
+        for x, y in ((x0, y0), (x1, y0), (x1, y1), (x0, y1), ((x0 + x1) / 2.0, y0), ((x0 + x1) / 2.0, y1), (x0, (y0 + y1) / 2.0),
+                     (x1, (y0 + y1) / 2.0)):
+            p = Point(x, y)
+            if t.contains(p) and t.boundary.distance(p) > 0.5:
+                return 'yes'
+        return 'maybe'
+
+
 # the catalogue of the exhaustive instances.  The requests look at the area x 60..180, y 470..580 (tile (2, 2) of
 # level 2 is x 80..120, y 520..560; tile (1, 1) of level 1 is x 80..160, y 480..560)
 CATALOGUE = {
@@ -152,8 +309,8 @@ def case_key(req, cb):
     return json.dumps([tla.jsonable(req), tla.jsonable(cb)], sort_keys=True)
 
 
-def tile_rows(z):
-    gb, res, ts = W.GRID['bbox'], W.GRID['res'], W.GRID['tile_size']
+def tile_rows(world, z):
+    gb, res, ts = world.grid['bbox'], world.grid['res'], world.grid['tile_size']
     return (gb[3] - gb[1]) // (res[z] * ts[1])
 
 
@@ -162,7 +319,7 @@ def url_of(world, r, fmt='png', version='1.1.1'):
     x0, y0, rx, ry, w, h = r['box']
     if f in ('wms.map', 'wms.fi'):
         base = ('/service?SERVICE=WMS&VERSION=1.1.1&STYLES=&SRS=%s&BBOX=%d,%d,%d,%d&WIDTH=%d&HEIGHT=%d' % (
-            W.SRS, x0, y0, x0 + w * rx, y0 + h * ry, w, h))
+            world.srs, world.sx(x0), world.sy(y0), world.sx(x0 + w * rx), world.sy(y0 + h * ry), w, h))
         if f == 'wms.map':
             return base + '&REQUEST=GetMap&LAYERS=%s&FORMAT=image/%s&TRANSPARENT=%s' % (
                 ','.join(r['ls']), fmt, 'true' if fmt == 'png' else 'false')
@@ -177,15 +334,15 @@ def url_of(world, r, fmt='png', version='1.1.1'):
     lay = r['lay']
     z, col, row = r['tile']
     tfmt = 'jpeg' if world.kinds[lay] == 'cachej' else 'png'
-    y = tile_rows(z) - 1 - row
+    y = tile_rows(world, z) - 1 - row
     if f == 'tms':
-        return '/tms/1.0.0/%s/%s/%d/%d/%d.%s' % (lay, W.SRS_PATH, z, col, y, tfmt)
+        return '/tms/1.0.0/%s/%s/%d/%d/%d.%s' % (lay, world.srs_path, z, col, y, tfmt)
     if f == 'tms.layer':
-        return '/tms/1.0.0/%s/%s' % (lay, W.SRS_PATH)
+        return '/tms/1.0.0/%s/%s' % (lay, world.srs_path)
     if f == 'kml':
-        return '/kml/%s/%s/%d/%d/%d.%s' % (lay, W.SRS_PATH, z, col, y, tfmt)
+        return '/kml/%s/%s/%d/%d/%d.%s' % (lay, world.srs_path, z, col, y, tfmt)
     if f == 'kml.doc':
-        return '/kml/%s/%s/%d/%d/%d.kml' % (lay, W.SRS_PATH, z, col, y)
+        return '/kml/%s/%s/%d/%d/%d.kml' % (lay, world.srs_path, z, col, y)
     if f == 'wmts.rest':
         return '/wmts/%s/g/%02d/%d/%d.%s' % (lay, z, col, row, tfmt)
     if f == 'wmts.kvp':
@@ -348,7 +505,7 @@ class Instance(object):
         root = tuple(n for n in w.names if n not in w.group) + (('g',) if w.group else ())
         return dict(Kinds=kinds, Root=root, Group=tuple(w.group),
                     GeomTab=FD((k, g.tla()) for k, g in self.geoms.items()),
-                    GridBox=tuple(W.GRID['bbox']), GridRes=tuple(W.GRID['res']), TileSize=tuple(W.GRID['tile_size']),
+                    GridBox=tuple(w.grid['bbox']), GridRes=tuple(w.grid['res']), TileSize=tuple(w.grid['tile_size']),
                     CombineChoices=(frozenset([True, False]) if combine is None else frozenset([bool(combine)])), Requests=frozenset(self.requests), AuthKinds=frozenset(self.auth),
                     PermOpts=frozenset(FD(map=m, featureinfo=f, tile=t) for m, f, t in self.perms),
                     LimIds=frozenset(self.lims), GlobIds=frozenset(self.globs), EntryNames=frozenset(self.entries))
@@ -543,11 +700,11 @@ def replay_table(ctx, apps, inst, tables, label):
 
 
 def world_json(w):
-    return {'kinds': {n: w.kinds[n] for n in w.names}, 'group': list(w.group), 'group_this': w.group_this}
+    return {'kinds': {n: w.kinds[n] for n in w.names}, 'group': list(w.group), 'group_this': w.group_this, 'frame': w.frame}
 
 
 def world_from_json(d):
-    return W.World(d['kinds'], group=tuple(d['group']), group_this=d.get('group_this'))
+    return W.World(d['kinds'], group=tuple(d['group']), group_this=d.get('group_this'), frame=d.get('frame'))
 
 
 def describe(req):
@@ -652,7 +809,7 @@ def random_event(rng, world, geoms):
         lay = rng.choice(tl)
         z = rng.randint(0, len(W.GRID['res']) - (2 if f == 'kml.doc' else 1))   # the KML document of the last level is a 500 (not C10)
         res = W.GRID['res'][z]
-        cols, rows = (gb[2] - gb[0]) // (res * ts[0]), tile_rows(z)
+        cols, rows = (gb[2] - gb[0]) // (res * ts[0]), tile_rows(world, z)
         col, row = rng.randint(0, cols - 1), rng.randint(0, rows - 1)
         req = mkreq(f, lay=lay, tile=(z, col, row), pos=(rng.randint(0, ts[0] - 1), rng.randint(0, ts[1] - 1)))
         x0, y1 = gb[0] + col * res * ts[0], gb[3] - row * res * ts[1]
@@ -678,11 +835,44 @@ def random_event(rng, world, geoms):
     return req, cb, fmt
 
 
-def event_json(req, cb, obs, geoms):
+TILE_FEATURES = ('tms', 'kml', 'wmts.kvp', 'wmts.rest', 'wmts.fi.kvp', 'wmts.fi.rest', 'tms.layer', 'kml.doc')
+
+
+def tile_box(world, t):
+    z, col, row = t
+    gb, res, ts = world.grid['bbox'], world.grid['res'][z], world.grid['tile_size']
+    return (gb[0] + col * res * ts[0], gb[3] - (row + 1) * res * ts[1], res, res, ts[0], ts[1])
+
+
+def box_of(world, req):
+    return tile_box(world, req['tile']) if req['f'] in TILE_FEATURES else tuple(req['box'])
+
+
+def raster_json(world, req, g, side=None):
+    """the raster entry of the geometry table of Auth.tla for area g and THIS request (see OGeom); side (a dict) receives the
+    signed distances of the pixel centres (for reports and vacuity counters only)"""
+    f = req['f']
+    bx = box_of(world, req)
+    cls, pt, grid = [], 'in', 'maybe'
+    if f in IMAGE_FEATURES:
+        cls, signed = g.classes(bx)
+        if side is not None:
+            side['signed'] = signed
+    elif f in ('wms.fi', 'wmts.fi.kvp', 'wmts.fi.rest'):
+        x0, y0, rx, ry, w, h = bx
+        pt = g.point_class(x0 + req['pos'][0] * rx, y0 + h * ry - req['pos'][1] * ry, max(rx, ry))
+    elif f == 'wms.caps':
+        grid = g.grid_fact(world)
+    return {'cls': cls, 'pt': pt, 'grid': grid}
+
+
+def event_json(world, req, cb, obs, geoms, side=None):
+    """side: optional dict, receives {geometry id: {'signed': distances}} for oblique geometries"""
     used = sorted(({cb['glob']} | {e['lim'] for e in cb['layers'].values()}) - {'none'})
     gs = {'Z': CATALOGUE['Gfar']}
     gs.update((g, geoms[g]) for g in used)
-    return {'geoms': {g: {'xs': [2 * x for x in v.xs], 'ys': [2 * y for y in v.ys], 'cells': [list(c) for c in sorted(v.cells)]}
+    return {'geoms': {g: (raster_json(world, req, v, side.setdefault(g, {}) if side is not None else None) if isinstance(v, OGeom) else
+                          {'xs': [2 * x for x in v.xs], 'ys': [2 * y for y in v.ys], 'cells': [list(c) for c in sorted(v.cells)]})
                       for g, v in gs.items()},
             'req': {'f': req['f'], 'ls': list(req['ls']), 'expl': sorted(req['expl']), 'box': list(req['box']), 'pos': list(req['pos']),
                     'lay': req['lay'], 'tile': list(req['tile'])},
@@ -704,8 +894,10 @@ def validate_events(ctx, world, geoms, events, name):
                           invariants=['TypeOK'])
     r = tlc.run(mp, cp, d, workers=1, coverage=False, env={'TRACE_FILE': tf}, timeout=3000)
     pa, pc_, pb = tlc.find_prints(r.out, 'accepted'), tlc.find_prints(r.out, 'accepted_combined'), tlc.find_prints(r.out, 'obsbad')
-    if not pa or not pb or not pc_:
+    po, pi = tlc.find_prints(r.out, 'obsbad_outside'), tlc.find_prints(r.out, 'obsbad_inside')
+    if not pa or not pb or not pc_ or not po or not pi:
         raise tlc.MachineryError('trace validation: no verdict from TLC\n' + r.out[-2500:])
+    r.bad_outside, r.bad_inside = {int(x) for x in po[-1][1]}, {int(x) for x in pi[-1][1]}
     return r, {int(x) for x in pa[-1][1]}, {int(x) for x in pc_[-1][1]}, {int(x) for x in pb[-1][1]}
 
 
@@ -723,7 +915,7 @@ def random_traces(ctx, apps, nworlds, nevents):
             if obs['problems']:
                 ctx.violation({'kind': 'conformance', 'feature': req['f'], 'what': 'harness', 'detail': obs['problems'][0][:80]},
                               'random %s %s: %s' % (req['f'], describe(req), '; '.join(obs['problems'])[:300]), None)
-            events.append(event_json(req, cb, obs, geoms))
+            events.append(event_json(world, req, cb, obs, geoms))
             meta.append((req, cb, variant, fmt, obs))
             ctx.count(('event', wi, k, req['f'], obs['status'], json.dumps(obs['px']), tuple(obs['ups'])))
         r, acc_found, acc_comb, bad = validate_events(ctx, world, geoms, events, 'trace-%d' % wi)
@@ -756,6 +948,358 @@ def random_traces(ctx, apps, nworlds, nevents):
                               'listing %s px %s' % (req['f'], describe(req), describe_cb(cb), obs['status'], obs['ups'], obs['infos'],
                                                     obs['listing'], obs['px']), case)
     ctx.log('validated %d recorded requests with TLC (%d rejected, %d violate the property)' % (total, rejected, obsbad))
+
+
+
+# ---------------------------------------------------------------------------------------------------------------
+# code -> spec, oblique worlds
+# ---------------------------------------------------------------------------------------------------------------
+OBLIQUE_POOL = [
+    {'kinds': {'a': 'wmsT', 'b': 'cache', 'c': 'cachej'}, 'group': ['b', 'c'], 'group_this': None, 'frame': 'A'},
+    {'kinds': {'b': 'cache', 'c': 'cachej'}, 'group': [], 'group_this': None, 'frame': 'B'},
+    {'kinds': {'a': 'cache', 'b': 'wmsT', 'c': 'wmsO'}, 'group': ['b', 'c'], 'group_this': None, 'frame': 'C'},
+    {'kinds': {'a': 'cache', 'b': 'wmsT', 'c': 'wmsO'}, 'group': ['b', 'c'], 'group_this': None, 'frame': 'B'},
+    {'kinds': {'a': 'cachej', 'b': 'cache'}, 'group': ['b'], 'group_this': 'cache', 'frame': 'A'},
+]
+SPARSE_SIG = {'kind': 'oblique', 'cause': 'sparse-geometry-transformed-by-vertices'}
+
+
+def _lonlat(frame, x, y):
+    lon, lat = W.lattice_to_lonlat(frame, [x], [y])
+    return float(lon[0]), float(lat[0])
+
+
+def box_edges(focus):
+    x0, y0, x1, y1 = focus
+    return [((x0, y1), (x1, y1)), ((x0, y0), (x1, y0)), ((x0, y0), (x0, y1)), ((x1, y0), (x1, y1))]     # upper, lower, left, right
+
+
+def halfplane(frame, edge, t, frac, side):
+    """the half plane of the lon/lat plane whose border is parallel to the lon/lat chord of the lattice segment `edge` and runs
+    at `frac` of the way from the chord (0) to the image of the edge's point at parameter t (1); side -1: the side of the chord"""
+    from shapely.geometry import box, Polygon
+    import math
+    (ax, ay), (bx_, by) = edge
+    a, b, c = _lonlat(frame, ax, ay), _lonlat(frame, bx_, by), _lonlat(frame, ax + t * (bx_ - ax), ay + t * (by - ay))
+    q = (a[0] + t * (b[0] - a[0]), a[1] + t * (b[1] - a[1]))
+    ln = math.hypot(b[0] - a[0], b[1] - a[1])
+    u = ((b[0] - a[0]) / ln, (b[1] - a[1]) / ln)
+    n = (-u[1], u[0])
+    bulge = n[0] * (c[0] - q[0]) + n[1] * (c[1] - q[1])
+    if bulge < 0:
+        n, bulge = (-n[0], -n[1]), -bulge
+    bulge = max(bulge, 1e-3)
+    p0 = (q[0] + frac * bulge * n[0], q[1] + frac * bulge * n[1])
+    big = 500.0
+    hp = Polygon([(p0[0] - big * u[0], p0[1] - big * u[1]), (p0[0] + big * u[0], p0[1] + big * u[1]),
+                  (p0[0] + big * u[0] + side * big * n[0], p0[1] + big * u[1] + side * big * n[1]),
+                  (p0[0] - big * u[0] + side * big * n[0], p0[1] - big * u[1] + side * big * n[1])])
+    return hp.intersection(box(*O_WINDOW))
+
+
+_BULGES = {}
+
+
+def bulge_table(world):
+    """[(tile, edge index, bulge in pixels)]: the tiles with an edge whose image in the lon/lat plane deviates from the
+    straight lon/lat chord between its corners by at least 1.8 pixels (measured in the grid SRS)"""
+    import numpy as np
+    if world.frame not in _BULGES:
+        tab = []
+        gb, ts = world.grid['bbox'], world.grid['tile_size']
+        for z, res in enumerate(world.grid['res']):
+            for col in range((gb[2] - gb[0]) // (res * ts[0])):
+                for row in range(tile_rows(world, z)):
+                    bx = tile_box(world, (z, col, row))
+                    for k, (a, b) in enumerate(box_edges((bx[0], bx[1], bx[0] + bx[2] * bx[4], bx[1] + bx[3] * bx[5]))):
+                        t = np.linspace(0.3, 0.7, 9)
+                        lon, lat = W.lattice_to_lonlat(world.frame, [a[0], b[0]], [a[1], b[1]])
+                        px, py = W.lonlat_to_lattice(world.frame, lon[0] + t * (lon[1] - lon[0]), lat[0] + t * (lat[1] - lat[0]))
+                        dev = float(np.min(np.abs(py - a[1]) if a[1] == b[1] else np.abs(px - a[0]))) / res
+                        if dev >= 1.8:
+                            tab.append(((z, col, row), k, dev))
+        _BULGES[world.frame] = tab
+    return _BULGES[world.frame]
+
+
+def random_oshape(rng, world, focus, m, target=None):
+    """one random area of the lon/lat plane near the lattice box `focus` -> (shapely geometry, rect or None).
+    target = (edge index, bulge in pixels): the border runs between the chord and the image of that edge of the focus box,
+    1.2 pixels or more inside the bulge"""
+    from shapely.geometry import box, Polygon
+    import math
+    frame = world.frame
+    if target:
+        poke = rng.uniform(1.25, max(1.3, target[1] - 0.15))
+        return halfplane(frame, box_edges(focus)[target[0]], rng.uniform(0.4, 0.6), 1.0 - poke / target[1], -1.0), None
+    x0, y0, x1, y1 = focus
+    span = float(max(x1 - x0, y1 - y0))
+    pole_y = -world.origin[1] / float(world.scale)
+    wl, ws, we, wn = O_WINDOW
+
+    def near(k):
+        return rng.uniform(x0 - k * span, x1 + k * span), min(rng.uniform(y0 - k * span, y1 + k * span), pole_y - 3.0)
+
+    k = rng.random()
+    if k < 0.05:
+        r = (wl, ws, we, wn)
+        return box(*r), r
+    if k < 0.09:
+        r = (120.0, 60.0, 150.0, 70.0)                        # beyond the pole
+        return box(*r), r
+    if k < 0.27:
+        # south of a parallel through a point of the upper edge (the pole side) of the focus box: for a tile that
+        # straddles the meridian through the pole the parallel through the corners cuts off the middle of the edge
+        px, py = (rng.uniform(x0, x1), y1 + rng.uniform(-0.5, 0.5) * m * rng.choice([0, 0, 1, 4])) if rng.random() < 0.75 else near(0.2)
+        lat = _lonlat(frame, px, min(py, pole_y - 3.0))[1]
+        r = (wl, ws, we, lat)
+        return box(*r), r
+    if k < 0.34:
+        lat = _lonlat(frame, *near(0.1))[1]                   # north of a parallel
+        r = (wl, lat, we, wn)
+        return box(*r), r
+    if k < 0.50:
+        (lo0, la0), (lo1, la1) = _lonlat(frame, *near(0.6)), _lonlat(frame, *near(0.6))
+        r = (min(lo0, lo1) - rng.choice([0, 0, 20]), min(la0, la1) - rng.choice([0, 0, 10]),
+             max(lo0, lo1) + rng.choice([0.5, 5, 20]), max(la0, la1) + rng.choice([0.05, 0.5, 2]))
+        r = (max(r[0], -179.0), max(r[1], 30.0), min(r[2], 179.0), min(r[3], wn))
+        return box(*r), r
+    if k < 0.80:
+        # a half plane of the lon/lat plane whose border runs between the lon/lat chord of one edge of the focus box and
+        # the (curved) image of that edge (frac in 0..1), cuts the chord (frac < 0) or passes beyond the curve (frac > 1)
+        kk = rng.random()
+        frac = rng.uniform(0.1, 0.9) if kk < 0.6 else rng.uniform(-1.5, 0.0) if kk < 0.8 else rng.uniform(1.1, 3.0)
+        edge = box_edges(focus)[rng.choice([0, 0, 0, 1, 2, 3])]
+        return halfplane(frame, edge, rng.uniform(0.3, 0.7), frac, -1.0 if rng.random() < 0.75 else 1.0), None
+    # polygon with few vertices, star shaped (in the lattice) around a point near the focus
+    cx, cy = near(0.3)
+    nv = rng.choice([3, 4, 5, 6])
+    angs = sorted(rng.uniform(0, 2 * math.pi) for _ in range(nv))
+    pts = []
+    for ang in angs:
+        rad = rng.uniform(0.3, 2.0) * span
+        pts.append(_lonlat(frame, cx + rad * math.cos(ang), min(cy + rad * math.sin(ang), pole_y - 3.0)))
+    pg = Polygon(pts)
+    if not pg.is_valid:
+        pg = pg.convex_hull
+    return pg, None
+
+
+def random_ogeom(rng, world, focus, m, sparse, target=None):
+    for _ in range(50):
+        g, rect = random_oshape(rng, world, focus, m, target)
+        k = rng.random() if not target else 1.0
+        if k < 0.2:
+            g2 = random_oshape(rng, world, focus, m)[0]       # several parts (or one, when they overlap)
+            g, rect = g.union(g2), None
+        elif k < 0.35:
+            h = random_oshape(rng, world, focus, m)[0]        # a hole / a bite
+            if h.area < g.area:
+                g, rect = g.difference(h), None
+        if g.is_empty or not g.is_valid or g.geom_type not in ('Polygon', 'MultiPolygon') or g.area < 1e-6:
+            continue
+        if g.geom_type == 'MultiPolygon':
+            from shapely.geometry import MultiPolygon
+            parts = [p for p in g.geoms if p.area > 1e-6]
+            if not parts:
+                continue
+            g = parts[0] if len(parts) == 1 else MultiPolygon(parts)
+        og = OGeom(world.frame, g, sparse, rect)
+        try:
+            og.true()
+        except tlc.MachineryError:
+            continue
+        return og
+    raise tlc.MachineryError('no valid oblique geometry generated')
+
+
+def random_oblique_event(rng, world, geoms):
+    """-> (req, cb, fmt, sparse); geometries (OGeom) are added to `geoms`"""
+    target = None
+    names = list(world.names) + (['g'] if world.group else [])
+    tl = world.tile_layers
+    feats = (['tms'] * 4 + ['kml'] * 2 + ['wmts.kvp'] * 2 + ['wmts.rest'] * 3 + ['wmts.fi.kvp', 'wmts.fi.rest'] + ['wms.map'] * 5
+             + ['wms.fi'] * 2 + ['wms.caps', 'tms.layer'])
+    f = rng.choice(feats)
+    gb, ts, ress = world.grid['bbox'], world.grid['tile_size'], world.grid['res']
+    pole_x = -world.origin[0] // world.scale
+    if f in ('wms.map', 'wms.fi'):
+        rx = rng.choice([4, 4, 2, 2, 1, 3, 5])
+        ry = rx if rng.random() < 0.8 else rng.choice([2, 3, 4])
+        wpx, hpx = rng.randint(4, 16), rng.randint(3, 12)
+        x0 = rng.randint(gb[0], gb[2] - wpx * rx)
+        if rng.random() < 0.5:         # astride the meridian through the pole, near the upper edge of the grid
+            x0 = max(gb[0], min(gb[2] - wpx * rx, pole_x - rng.randint(1, wpx * rx - 1)))
+            y0 = gb[3] - hpx * ry - rng.randint(0, 20)
+        else:
+            y0 = rng.randint(gb[1], gb[3] - hpx * ry)
+        box = (x0, y0, rx, ry, wpx, hpx)
+        ls = [rng.choice(names) for _ in range(rng.choice([1, 1, 2, 2, 3]))]
+        ls = [n for i, n in enumerate(ls) if n not in ls[:i]]
+        if f == 'wms.map':
+            req = mkreq(f, ls, box=box)
+        else:
+            expl = ls if rng.random() < 0.8 else [rng.choice(names)]
+            req = mkreq(f, ls, expl=expl, box=box, pos=(rng.randint(0, wpx - 1), rng.randint(0, hpx - 1)))
+    elif f == 'wms.caps':
+        req = mkreq(f)
+        box = (gb[2] - 40, gb[1], 4, 4, 10, 10)
+    else:
+        lay = rng.choice(tl)
+        z = rng.choice([0, 0, 0, 1, 1, 2]) % len(ress)
+        res = ress[z]
+        cols, rows = (gb[2] - gb[0]) // (res * ts[0]), tile_rows(world, z)
+        col, row = rng.randint(0, cols - 1), rng.randint(0, rows - 1)
+        if rng.random() < 0.5:         # the tile column astride the meridian through the pole, upper rows
+            col = (pole_x - gb[0]) // (res * ts[0])
+            row = rng.choice([0, 0, 0, 1, 1, 2]) % rows
+        if f in ('tms', 'kml', 'wmts.kvp', 'wmts.rest') and rng.random() < 0.3 and bulge_table(world):
+            # the border of the area runs through the bulge of a strongly curved tile edge, the four corners are inside
+            (z, col, row), edge, dev = rng.choice(bulge_table(world))
+            target = (edge, dev)
+        req = mkreq(f, lay=lay, tile=(z, col, row), pos=(rng.randint(0, ts[0] - 1), rng.randint(0, ts[1] - 1)))
+        box = tile_box(world, (z, col, row))
+    focus = (box[0], box[1], box[0] + box[2] * box[4], box[1] + box[3] * box[5])
+    sparse = rng.random() < 0.2
+
+    def new_geom(target=None):
+        gid = 'R%d' % len(geoms)
+        geoms[gid] = random_ogeom(rng, world, focus, max(box[2], box[3]), sparse, target)
+        return gid
+    if target:
+        layers = {n: FD(map=rng.random() < 0.85, featureinfo=rng.random() < 0.85, tile=rng.random() < 0.85, lim='none')
+                  for n in names if n != req['lay'] and rng.random() < 0.8}
+        as_glob = rng.random() < 0.4
+        layers[req['lay']] = FD(map=rng.random() < 0.85, featureinfo=rng.random() < 0.85, tile=True,
+                                lim='none' if as_glob else new_geom(target))
+        cb = FD(authorized='partial', layers=FD(layers), glob=new_geom(target) if as_glob else 'none')
+    elif rng.random() < 0.04:
+        cb = FD(authorized=rng.choice(['full', 'none', 'unauthenticated']), layers=FD(), glob='none')
+    else:
+        layers = {}
+        for n in names:
+            if rng.random() < 0.15:
+                continue
+            e = dict(map=rng.random() < 0.85, featureinfo=rng.random() < 0.85, tile=rng.random() < 0.85, lim='none')
+            if rng.random() < 0.6:
+                e['lim'] = new_geom()
+            layers[n] = FD(e)
+        cb = FD(authorized='partial', layers=FD(layers), glob=new_geom() if rng.random() < 0.35 else 'none')
+    return req, cb, 'png', sparse
+
+
+def oblique_stats(world, req, cb, obs, side, stats, geoms):
+    """vacuity counters of the oblique events (they decide nothing): the outcome class of tile requests under a limit, pixels
+    that are "out" although they lie inside the straight lon/lat quadrilateral through the four tile corners, and tile
+    requests where every applicable area contains that quadrilateral while some pixel is "out" (what seed s15 needs)"""
+    import numpy as np
+    import shapely
+    f = req['f']
+    if f not in ('tms', 'kml', 'wmts.kvp', 'wmts.rest') or obs['status'] != 200 or cb['authorized'] != 'partial' or not obs['px']:
+        return
+    e = cb['layers'].get(req['lay'])
+    ids = [i for i in ((e['lim'] if e else 'none'), cb['glob']) if i != 'none']
+    if not e or not e['tile'] or not ids:
+        return
+    flat = [c for row in obs['px'] for c in row]
+    lit = sum(1 for c in flat if c not in (0, 1))
+    dark = sum(1 for c in flat if c == 1)
+    stats['outcome:' + ('contains' if dark == 0 else ('disjoint' + ('-rendered' if obs['ups'] else '-empty')) if lit == 0 else 'masked')] += 1
+    signed = np.max(np.stack([side[i]['signed'] for i in ids]), axis=0)      # outside any area = outside the intersection
+    out = signed > 1.0 + TOL
+    stats['pixels:out'] += int(out.sum())
+    x0, y0, rx, ry, w, h = tile_box(world, req['tile'])
+    lon, lat = W.lattice_to_lonlat(world.frame, [x0, x0 + w * rx, x0 + w * rx, x0], [y0, y0, y0 + h * ry, y0 + h * ry])
+    q4 = shapely.Polygon(list(zip(lon.tolist(), lat.tolist())))
+    cx, cy = np.meshgrid(x0 + (np.arange(w) + 0.5) * rx, y0 + h * ry - (np.arange(h) + 0.5) * ry)
+    plon, plat = W.lattice_to_lonlat(world.frame, cx.ravel(), cy.ravel())
+    inq = shapely.contains(q4, shapely.points(plon, plat)).reshape(cx.shape)
+    n = int((out & inq).sum())
+    stats['pixels:out-inside-corner-quadrilateral'] += n
+    if out.any():
+        stats['tiles:some-pixel-out'] += 1
+        if all(geoms[i].g.contains(q4) for i in ids):
+            stats['tiles:areas-contain-corner-quadrilateral-but-some-pixel-out'] += 1
+
+
+def oblique_traces(ctx, apps, nworlds, nevents, stats):
+    """random requests in the oblique worlds, recorded from the real application and validated by TLC"""
+    import numpy as np
+    total = rejected = obsbad = nsparse = 0
+    for wi in range(nworlds):
+        wd = OBLIQUE_POOL[wi % len(OBLIQUE_POOL)]
+        world = world_from_json(wd)
+        app = apps.get(world)
+        geoms, events, meta = {}, [], []
+        t0 = time.time()
+        for k in range(nevents):
+            req, cb, fmt, sparse = random_oblique_event(ctx.rng, world, geoms)
+            variant = ctx.rng.randrange(len(FORMS))
+            obs = observe(world, app, req, cb, geoms, variant, fmt)
+            if obs['problems']:
+                ctx.violation({'kind': 'conformance', 'feature': req['f'], 'what': 'harness', 'detail': obs['problems'][0][:80]},
+                              'random oblique %s %s: %s' % (req['f'], describe(req), '; '.join(obs['problems'])[:300]), None)
+            side = {}
+            events.append(event_json(world, req, cb, obs, geoms, side))
+            if not sparse:
+                oblique_stats(world, req, cb, obs, side, stats, geoms)
+                if req['f'] in ('wms.fi', 'wmts.fi.kvp', 'wmts.fi.rest') and obs['status'] == 200 and cb['authorized'] == 'partial':
+                    stats['featureinfo:answered' if obs['infos'] else 'featureinfo:nothing'] += 1
+                    if any(g.get('pt') == 'out' for g in events[-1]['geoms'].values()):
+                        stats['featureinfo:point-outside-an-area'] += 1
+            nsparse += bool(sparse)
+            meta.append((req, cb, variant, fmt, obs, sparse, side))
+            ctx.count(('oevent', wi, k, req['f'], obs['status'], json.dumps(obs['px']), tuple(obs['ups'])))
+        t1 = time.time()
+        r, acc_found, acc_comb, bad = validate_events(ctx, world, geoms, events, 'otrace-%d' % wi)
+        ctx.log('oblique world %d (frame %s): %d requests recorded [%.0fs], validated by TLC [%.0fs]' % (
+            wi, world.frame, len(events), t1 - t0, time.time() - t1))
+        ctx.cov['traces_validated_against_impl'] += len(events)
+        ctx.cov['states'] += r.distinct
+        ctx.cov['transitions'] += r.generated
+        total += len(events)
+        if wi == 0:
+            some = next((e for e in events if e['req']['f'] == 'tms' and any(len(g.get('cls', [])) for g in e['geoms'].values())), events[0])
+            rows = lambda m: [' '.join(str(c) for c in row) for row in m]          # (compact: one string per pixel row)
+            ctx.sample({'kind': 'recorded request of an oblique world validated by Trace_Auth (pixel rows written as strings)',
+                        'event': dict(some, geoms={g: (dict(v, cls=rows(v['cls'])) if 'cls' in v else v) for g, v in some['geoms'].items()},
+                                      obs=dict(some['obs'], px=rows(some['obs']['px'])))})
+        for i, (req, cb, variant, fmt, obs, sparse, side) in enumerate(meta):
+            if (i + 1) not in bad and ((i + 1) in acc_found or (i + 1) in acc_comb):
+                continue
+            used = sorted(({cb['glob']} | {e['lim'] for e in cb['layers'].values()}) - {'none'})
+            case = {'world': wd, 'geoms': {g: geoms[g].json() for g in used}, 'req': tla.jsonable(req), 'cb': tla.jsonable(cb),
+                    'variant': variant, 'fmt': fmt, 'url': obs['url']}
+            what = ('content-outside' if (i + 1) in r.bad_outside else 'content-missing-inside' if (i + 1) in r.bad_inside
+                    else 'other' if (i + 1) in bad else 'trace-rejected')
+            obsbad += (i + 1) in bad
+            rejected += (i + 1) not in acc_found and (i + 1) not in acc_comb
+            worst = ''
+            e = cb['layers'].get(req['lay']) if req['f'] in IMAGE_FEATURES and req['f'] != 'wms.map' else None
+            ids = [x for x in ((e['lim'] if e else 'none'), cb['glob']) if x != 'none' and 'signed' in side.get(x, {})]
+            if e and obs['px'] and ids:
+                # (report only) how far outside the applicable areas the lit pixels are, how far inside the dark ones
+                px = np.array(obs['px'])
+                sg = np.max(np.stack([side[x]['signed'] for x in ids]), axis=0)
+                if sg.shape == px.shape:
+                    lit, dark = (px != 1) & (px != 0), px == 1
+                    worst = ' [%d lit pixels more than one pixel outside the area (the farthest %.1f px), %d dark pixels more than one pixel inside (the deepest %.1f px)]' % (
+                        int((lit & (sg > 1 + TOL)).sum()), max(0.0, float(sg[lit].max())) if lit.any() else 0.0,
+                        int((dark & (sg < -1 - TOL)).sum()), max(0.0, float(-sg[dark].min())) if dark.any() else 0.0)
+            text = ('oblique world (grid %s, limited_to in EPSG:4326, %s geometries): %s %s under callback %s -> status %s ups %s infos %s; '
+                    'TLC: %s%s' % (world.srs, 'SPARSE' if sparse else 'densified', req['f'], describe(req), describe_cb(cb), obs['status'],
+                                   obs['ups'], obs['infos'],
+                                   {'content-outside': 'ClippedOutside violated by the observation',
+                                    'content-missing-inside': 'ContentInside violated by the observation',
+                                    'other': 'the observation violates the property',
+                                    'trace-rejected': 'the response is not a terminal state of Auth.tla'}[what], worst))
+            if sparse:
+                ctx.violation(dict(SPARSE_SIG, service=family(req['f']), what=what), text, case)
+            else:
+                ctx.violation({'kind': 'oblique-property' if (i + 1) in bad else 'oblique-trace-rejected', 'feature': req['f'], 'what': what,
+                               'geometries': 'densified'}, text, case)
+    ctx.log('oblique worlds: validated %d recorded requests with TLC (%d with sparse geometries; %d rejected, %d violate the property)' % (
+        total, nsparse, rejected, obsbad))
 
 
 TILE_WITH_COVERAGE = ('tms', 'kml', 'wmts.kvp', 'wmts.rest', 'wmts.fi.kvp', 'wmts.fi.rest')
@@ -794,6 +1338,8 @@ def run(ctx):
     tlc.sany(SPEC)
     insts = instances(ctx.tier)
     apps = Apps(ctx)
+    import collections
+    stats = collections.Counter()
     try:
         t0 = time.time()
         seen_situations = set()
@@ -857,12 +1403,40 @@ def run(ctx):
 
         # (T) code -> spec
         random_traces(ctx, apps, nworlds=(18 if thorough else 6), nevents=(1500 if thorough else 500))
+
+        # (T) code -> spec, oblique worlds: polar stereographic tile grid, limited_to areas natively in EPSG:4326
+        oblique_traces(ctx, apps, nworlds=(6 if thorough else 3), nevents=(800 if thorough else 300), stats=stats)
+        stats['outcome:disjoint'] = stats['outcome:disjoint-empty'] + stats['outcome:disjoint-rendered']
+        ctx.log('oblique worlds, tile requests under densified areas: ' + ', '.join('%s=%d' % kv for kv in sorted(stats.items())))
+        for need, least in (('outcome:contains', 3), ('outcome:masked', 20), ('outcome:disjoint', 3),
+                            ('pixels:out-inside-corner-quadrilateral', 200), ('featureinfo:answered', 3),
+                            ('featureinfo:point-outside-an-area', 3),
+                            ('tiles:areas-contain-corner-quadrilateral-but-some-pixel-out', 20)):
+            if stats[need] < least:
+                raise tlc.MachineryError('the oblique worlds exercised the class %r only %d times (at least %d expected): vacuous check' % (
+                    need, stats[need], least))
+        ctx.notes.append('oblique worlds (tile requests under densified EPSG:4326 areas on a polar stereographic grid): '
+                         + ', '.join('%s=%d' % kv for kv in sorted(stats.items())))
     finally:
         apps.close()
     ctx.assumptions += [
-        'limited_to areas are rectilinear (unions of lattice rectangles, holes, parts touching in a corner), given as bbox, WKT, '
-        'several WKT lines or shapely geometry, in the request SRS, its alias EPSG:900913, or as EPSG:4326 coordinates of the same '
-        'lattice vertices (web mercator keeps axis-parallel edges axis-parallel); general reprojection accuracy is not decided',
+        'same-SRS worlds (exhaustive instances and random requests): limited_to areas are rectilinear (unions of lattice rectangles, '
+        'holes, parts touching in a corner), given as bbox, WKT, several WKT lines or shapely geometry, in the request SRS, its alias '
+        'EPSG:900913, or as EPSG:4326 coordinates of the same lattice vertices (web mercator keeps axis-parallel edges axis-parallel)',
+        'oblique worlds (random requests only, validated by TLC against Trace_Auth): tile grid and WMS requests in EPSG:3995 (polar '
+        'stereographic; 16x16 and 32x32 pixel tiles; the pole is outside the grid, the antimeridian is not reached), limited_to areas '
+        'given natively in EPSG:4326 (lon/lat rectangles, half planes, polygons with few vertices, several parts, holes; as bbox, WKT, '
+        'WKT lines or shapely geometry).  An area is the polygon of the lon/lat plane with straight edges between its vertices; the '
+        'pixel classes, the class of the feature-info point and "meets the grid extent" are computed by the harness with pyproj point '
+        'transforms and shapely (outline densified in EPSG:4326 to a chord error of %g grid units, i.e. below 1/1000 pixel) and are '
+        'INPUTS of the model; a pixel within %g pixel of the one-pixel threshold counts as boundary band, a feature-info point within '
+        '%g pixel of the boundary may be answered either way.  The accuracy of pyproj itself is not decided.' % (TRUE_EPS, TOL, TOL),
+        'oblique worlds: 80%% of the requests use areas handed to MapProxy with densified edges (chord error below %g grid units = '
+        '%g pixel at the finest level): these must satisfy the property; 20%% use the same kind of areas with their few vertices only '
+        '(e.g. a lon/lat rectangle as 4 numbers): violations there are reported under the signature %s' % (
+            DENSE_EPS, DENSE_EPS, json.dumps(SPARSE_SIG, sort_keys=True)),
+        'oblique worlds: WMS requests in EPSG:4326 against the polar grid, tiles containing the pole, and the exhaustive (model '
+        'checked) instances are same-SRS only / not covered',
         'requests lie inside the extent of the tile grid; upstreams answer every request with a flat colour; caches do not store '
         '(every rendered layer reaches its upstream)',
         '"one pixel" is the larger of the two pixel sides; pixels whose centre is within one pixel of the boundary of an area may '
@@ -875,7 +1449,8 @@ def run(ctx):
     return ctx.finish('model_checking',
                       'TLC: all (request, callback result) pairs of the stated universes (1-3 layers with a group, all services); every '
                       'pair executed on the real application; distinct = distinct (case, observation) pairs plus distinct recorded '
-                      'random requests')
+                      'random requests (same-SRS worlds and oblique worlds: polar stereographic grid, EPSG:4326 areas)',
+                      extra={'oblique_worlds': dict(stats)})
 
 
 def applies(action, f):
@@ -893,7 +1468,7 @@ def replay(ctx, data):
         print('nothing to replay')
         return 0
     world = world_from_json(case['world'])
-    geoms = {k: Geom(g['rects'], g['holes']) for k, g in case['geoms'].items()}
+    geoms = {k: (OGeom.from_json(g) if 'wkt4326' in g else Geom(g['rects'], g['holes'])) for k, g in case['geoms'].items()}
     req = norm_req(case['req'])
     cbj = case['cb']
     cb = norm_cb({'authorized': cbj['authorized'], 'glob': cbj['glob'], 'layers': cbj['layers'] if isinstance(cbj['layers'], dict) else {}})
@@ -905,9 +1480,14 @@ def replay(ctx, data):
         print('observed: status %s upstream %s infos %s listing %s' % (obs['status'], obs['ups'], obs['infos'], obs['listing']))
         for row in obs['px']:
             print('          ' + ' '.join('%-4s' % NAMES_OF.get(c, '?') for c in row))
-        r, acc_found, acc_comb, bad = validate_events(ctx, world, geoms, [event_json(req, cb, obs, geoms)], 'replay')
+        r, acc_found, acc_comb, bad = validate_events(ctx, world, geoms, [event_json(world, req, cb, obs, geoms)], 'replay')
         print('Trace_Auth: %s by the model of the code as found, %s by the model with both limits applied; property on the observation: %s' % (
-            'accepted' if acc_found else 'REJECTED', 'accepted' if acc_comb else 'REJECTED', 'VIOLATED' if bad else 'holds'))
+            'accepted' if acc_found else 'REJECTED', 'accepted' if acc_comb else 'REJECTED',
+            ('VIOLATED' + (' (content outside an area)' if r.bad_outside else '') + (' (content missing well inside)' if r.bad_inside else ''))
+            if bad else 'holds'))
+        if world.frame:
+            print('oblique world: grid %s, areas given in EPSG:4326 (%s)' % (
+                world.srs, ', '.join('%s: %s' % (k, 'sparse' if g.sparse else 'densified') for k, g in sorted(geoms.items()))))
         rc = 1 if bad or not (acc_found or acc_comb) else 0
         return rc
     finally:
